@@ -1040,3 +1040,45 @@ mut("level0_candidates_oldest_first", ["C01", "C03"], "SRC-2", file="src/version
 benign("level0_candidates_sorted_by_cmp", ["C01", "C03"], "src/versioning/version.rs",
     old="""        files[0].sort_by_key(|f| Reverse(f.file_number()));""",
     new="""        files[0].sort_by(|a, b| b.file_number().cmp(&a.file_number()));""")
+
+# ---- GRD-16
+mut("trivial_move_with_parent_level_overlap", ["C10", "C09"], "GRD-16", file="src/compaction/manifest.rs",
+    old="""        num_compaction_level_files == 1
+            && num_parent_level_files == 0
+            && is_grandparents_overlap_under_limit""",
+    new="""        num_compaction_level_files == 1
+            && (num_parent_level_files == 0 || is_grandparents_overlap_under_limit)""")
+benign("trivial_move_by_early_return", ["C10", "C09"], "src/compaction/manifest.rs",
+    old="""        num_compaction_level_files == 1
+            && num_parent_level_files == 0
+            && is_grandparents_overlap_under_limit""",
+    new="""        if num_compaction_level_files != 1 || !self.input_files[1].is_empty() {
+            return false;
+        }
+        is_grandparents_overlap_under_limit""")
+
+# ---- GRD-17
+mut("flush_level_skips_next_level_overlap_check_at_level0", ["C01", "C07"], "GRD-17", file="src/versioning/version.rs",
+    old="""            if self.has_overlap_in_level(level + 1, Some(smallest_user_key), Some(largest_user_key))
+            {
+                break;
+            }
+""",
+    new="""            if level > 0
+                && self.has_overlap_in_level(level + 1, Some(smallest_user_key), Some(largest_user_key))
+            {
+                break;
+            }
+""", note="a flush whose range overlaps level 1 is placed at level 1 or deeper next to / below older data")
+benign("flush_level_overlap_test_in_local", ["C01", "C07"], "src/versioning/version.rs",
+    old="""            if self.has_overlap_in_level(level + 1, Some(smallest_user_key), Some(largest_user_key))
+            {
+                break;
+            }
+""",
+    new="""            let next_level_overlaps =
+                self.has_overlap_in_level(level + 1, Some(smallest_user_key), Some(largest_user_key));
+            if next_level_overlaps {
+                break;
+            }
+""")
